@@ -155,6 +155,9 @@ def run(ctx: Ctx, rep: Report, tier: str):
             defs_.setdefault(n.targets[0].id, []).append(n)
     splits = [n for n in ctx.own_nodes(np2) if isinstance(n, ast.Call) and ast.unparse(n.func) in ("re.split",) and len(n.args) >= 2]
     ok_sep = bool(splits)
+    if not splits:
+        rep.violation("C13.Z10", "normalize_path|collapse", np2, "normalize_path no longer splits the path on runs of the separator and re-joins the parts: interior and leading "
+                      "separator runs (`/a//b`, `//a`) survive normalisation, so paths_match(`/a//b`, `/a/b`) is false and replace_path produces `//b`")
     for sp in splits:
         a_ = sp.args[1]
         # the split operand is the parameter AFTER it was rebound to normalize_path_separators(param), or a local holding that value
@@ -166,6 +169,21 @@ def run(ctx: Ctx, rep: Report, tier: str):
     rep.check("C13.Z10", "normalize_path|separators-first", np2, ok_sep, "parts are split from normalize_path_separators(path)",
               "normalize_path no longer normalises separators before it splits the path: runs of the alternate separator survive, normalisation is not idempotent and "
               "paths_match(`/docs\\\\a.txt`, `/docs/a.txt`) is false")
+    rep.rule("C13.Z11", "one case-folding function: every helper of the path algebra (normalize_path, is_subpath, paths_match, replace_path) folds case with the same string "
+             "method, so their notions of 'same name' agree for every character (ß, ς, ﬁ ...)", 1)
+    folds = {}
+    for nm in ("normalize_path", "is_subpath", "paths_match", "replace_path", "normalize_path_separators", "join"):
+        fm = ctx.prog.cls("Provider").methods.get(nm)
+        if fm is None:
+            continue
+        for x in ctx.own_nodes(fm):
+            if isinstance(x, ast.Call) and isinstance(x.func, ast.Attribute) and x.func.attr in ("lower", "casefold", "upper") and not x.args:
+                folds.setdefault(x.func.attr, []).append((fm, x))
+    if not folds:
+        raise AnalysisError("no case folding found in the path helpers")
+    rep.check("C13.Z11", "Provider|one-fold", ctx.prog.func("Provider.normalize_path"), len(folds) == 1, "all helpers fold with .%s()" % sorted(folds)[0],
+              "the path helpers fold case with different functions (%s): for names whose casefold differs from their lowercase two helpers disagree whether two paths are the "
+              "same (paths_match true, is_subpath false; replace_path raises)" % {k: [ctx.line(f_, x_) for f_, x_ in v] for k, v in folds.items()})
     rep.rule("C13.Z1", "alias of C12.Y5: component boundary + symmetric case fold in is_subpath", expect_min=4)
     rep.rule("C13.Z6", "alias of C12.Y2: default translate uses the source side's provider for membership and the destination's for the join", expect_min=3)
     c12 = C12(ctx, rep)
